@@ -57,6 +57,7 @@ package gcetcbendorsement
 //@   ensures[C17] err != nil ==> unchanged(tdxpolicy.TdQuoteBodyPolicy)
 
 //@ func TdxPolicy
+//@   appendframe
 //@   modifies pbsrc, pbok
 //@   requires opts != nil && endorsement != nil
 //@   sweep[C07]
